@@ -326,17 +326,19 @@ void ThreadPool::resizeLocked(ssize_t sn) {
   }
   threads_.clear();
 
-  // Drain all rings in the arena (including shadow entries from prior resize-up)
+  // Drain all rings in the arena (including shadow entries from prior resize-up).
+  // Ring-resident tasks were counted in workRemaining_ when they were pushed, so
+  // run them through executeNext to keep the accounting balanced.
   for (size_t i = 0; i < rings_.size(); ++i) {
     OnceFunction task;
     while (rings_[i].try_pop(task)) {
-      task();
+      executeNext(std::move(task));
     }
   }
   for (size_t i = 0; i < stealRings_.size(); ++i) {
     OnceFunction task;
     while (stealRings_[i].try_pop(task)) {
-      task();
+      executeNext(std::move(task));
     }
   }
 
